@@ -11,64 +11,135 @@ theorem newlineOf_cases (this : List Line) :
     · simp
     · split <;> simp
 
-/-- the sentinel start-marker line is rewritten to the conventional one and sets the flag -/
-theorem fix_start (nl : Bytes) (h : nl = [10] ∨ nl = [13, 10] ∨ nl = [13]) :
-    fixLine (withName sentinel nameA ++ nl) = (withName lt7 nameA ++ nl, true) := by
-  rcases h with h | h | h <;> subst h <;> decide
+theorem length_le_of_isPrefixOf (m l : Bytes) (h : m.isPrefixOf l = true) : m.length ≤ l.length := by
+  rw [List.isPrefixOf_iff_prefix] at h
+  exact h.length_le
+
+theorem extendMarker_fresh (lines : List Line) (fuel : Nat) (m : Bytes)
+    (h : ∀ l ∈ lines, l.length < m.length + fuel) :
+    ∀ l ∈ lines, (extendMarker lines fuel m).isPrefixOf l = false := by
+  induction fuel generalizing m with
+  | zero =>
+    intro l hl
+    simp only [extendMarker]
+    cases hp : m.isPrefixOf l with
+    | false => rfl
+    | true =>
+      have := length_le_of_isPrefixOf m l hp
+      have := h l hl
+      omega
+  | succ n ih =>
+    simp only [extendMarker]
+    split
+    · apply ih
+      intro l hl
+      have := h l hl
+      simp only [List.length_append, List.length_cons, List.length_nil]
+      omega
+    · rename_i hany
+      intro l hl
+      simp only [List.any_eq_true, not_exists, not_and, Bool.not_eq_true] at hany
+      exact hany l hl
+
+theorem extendMarker_prefix (lines : List Line) (fuel : Nat) (m : Bytes) :
+    ∃ r, extendMarker lines fuel m = m ++ r := by
+  induction fuel generalizing m with
+  | zero => exact ⟨[], by simp [extendMarker]⟩
+  | succ n ih =>
+    simp only [extendMarker]
+    split
+    · obtain ⟨r, hr⟩ := ih (m ++ [33])
+      exact ⟨[33] ++ r, by rw [hr]; simp⟩
+    · exact ⟨[], by simp⟩
+
+theorem le_maxLen (ls : List Line) (l : Line) (h : l ∈ ls) : l.length ≤ maxLen ls := by
+  induction ls with
+  | nil => cases h
+  | cons x xs ih =>
+    simp only [maxLen]
+    rcases List.mem_cons.mp h with rfl | h'
+    · omega
+    · have := ih h'; omega
+
+/-- the marker handed to merge3 is fresh: no BASE / OTHER / THIS line starts with it -/
+theorem freshMarker_fresh (base other this : List Line) :
+    ∀ l ∈ base ++ other ++ this, (freshMarker base other this).isPrefixOf l = false := by
+  unfold freshMarker
+  apply extendMarker_fresh
+  intro l hl
+  have := le_maxLen _ l hl
+  omega
+
+theorem freshMarker_form (base other this : List Line) :
+    ∃ r, freshMarker base other this = sentinel ++ r :=
+  extendMarker_prefix _ _ _
+
+/-- the marker line written by merge3 is rewritten to the conventional one and sets the flag -/
+theorem fix_start (M nl : Bytes) :
+    fixLine M (withName M nameA ++ nl) = (withName lt7 nameA ++ nl, true) := by
+  have h1 : M.isPrefixOf (withName M nameA ++ nl) = true := by
+    simp [withName, List.append_assoc]
+  have h2 : (withName M nameA ++ nl).drop M.length = 32 :: nameA ++ nl := by
+    simp [withName, List.append_assoc]
+  simp only [fixLine, h1, if_true, h2]
+  simp [withName, List.append_assoc]
 
 theorem not_prefix_of_head (p s : Bytes) (a b : UInt8) (h : a ≠ b) :
     (a :: p).isPrefixOf (b :: s) = false := by
   simp [List.isPrefixOf, h]
 
-theorem fix_eq7 (nl : Bytes) : fixLine (eq7 ++ nl) = (eq7 ++ nl, false) := by
-  have : sentinel.isPrefixOf (eq7 ++ nl) = false := not_prefix_of_head _ _ 33 61 (by decide)
+theorem fix_eq7 (r nl : Bytes) : fixLine (sentinel ++ r) (eq7 ++ nl) = (eq7 ++ nl, false) := by
+  have : (sentinel ++ r).isPrefixOf (eq7 ++ nl) = false := not_prefix_of_head _ _ 33 61 (by decide)
   simp [fixLine, this]
 
-theorem fix_gt7 (nl : Bytes) : fixLine (withName gt7 nameB ++ nl) = (withName gt7 nameB ++ nl, false) := by
-  have : sentinel.isPrefixOf (withName gt7 nameB ++ nl) = false := not_prefix_of_head _ _ 33 62 (by decide)
+theorem fix_gt7 (r nl : Bytes) :
+    fixLine (sentinel ++ r) (withName gt7 nameB ++ nl) = (withName gt7 nameB ++ nl, false) := by
+  have : (sentinel ++ r).isPrefixOf (withName gt7 nameB ++ nl) = false := not_prefix_of_head _ _ 33 62 (by decide)
   simp [fixLine, this]
 
-theorem fix_bar7 (nl : Bytes) : fixLine (withName bar7 nameBase ++ nl) = (withName bar7 nameBase ++ nl, false) := by
-  have : sentinel.isPrefixOf (withName bar7 nameBase ++ nl) = false := not_prefix_of_head _ _ 33 124 (by decide)
+theorem fix_bar7 (r nl : Bytes) :
+    fixLine (sentinel ++ r) (withName bar7 nameBase ++ nl) = (withName bar7 nameBase ++ nl, false) := by
+  have : (sentinel ++ r).isPrefixOf (withName bar7 nameBase ++ nl) = false := not_prefix_of_head _ _ 33 124 (by decide)
   simp [fixLine, this]
 
-theorem fix_plain (l : Line) (h : sentinel.isPrefixOf l = false) : fixLine l = (l, false) := by
+theorem fix_plain (M : Bytes) (l : Line) (h : M.isPrefixOf l = false) : fixLine M l = (l, false) := by
   simp [fixLine, h]
 
-theorem map_fix_plain (ls : List Line) (h : ∀ l ∈ ls, sentinel.isPrefixOf l = false) :
-    ls.map (fun l => (fixLine l).1) = ls ∧ ls.any (fun l => (fixLine l).2) = false := by
+theorem map_fix_plain (M : Bytes) (ls : List Line) (h : ∀ l ∈ ls, M.isPrefixOf l = false) :
+    ls.map (fun l => (fixLine M l).1) = ls ∧ ls.any (fun l => (fixLine M l).2) = false := by
   induction ls with
   | nil => simp
   | cons l t ih =>
-    have hl := fix_plain l (h l (by simp))
+    have hl := fix_plain M l (h l (by simp))
     have := ih (fun x hx => h x (by simp [hx]))
     simp [hl, this.1, this.2]
 
-theorem iterMerge3_append (x y : List Line) :
-    iterMerge3 (x ++ y) = ((iterMerge3 x).1 ++ (iterMerge3 y).1, (iterMerge3 x).2 || (iterMerge3 y).2) := by
+theorem iterMerge3_append (M : Bytes) (x y : List Line) :
+    iterMerge3 M (x ++ y) =
+      ((iterMerge3 M x).1 ++ (iterMerge3 M y).1, (iterMerge3 M x).2 || (iterMerge3 M y).2) := by
   simp [iterMerge3]
 
-/-- result of the post-pass on the sentinel rendering vs the conventional rendering -/
-def Agree (conf : Bool) : Except Err (List Line) → Except Err (List Line) → Prop
-  | .ok x, .ok y => iterMerge3 x = (y, conf)
+/-- result of the post-pass on the marker rendering vs the conventional rendering -/
+def Agree (M : Bytes) (conf : Bool) : Except Err (List Line) → Except Err (List Line) → Prop
+  | .ok x, .ok y => iterMerge3 M x = (y, conf)
   | .error e, .error e' => e = e'
   | _, _ => False
 
-theorem renderRegion_agree (o : Opts) (nl : Bytes) (hnl : nl = [10] ∨ nl = [13, 10] ∨ nl = [13])
-    (r : Region) (h : ∀ l ∈ r.emitted o.showBase, sentinel.isPrefixOf l = false) :
-    Agree r.isConflict (renderRegion (withName sentinel nameA) (baseMarkerOf o) nl r)
+theorem renderRegion_agree (o : Opts) (r0 nl : Bytes)
+    (r : Region) (h : ∀ l ∈ r.emitted o.showBase, (sentinel ++ r0).isPrefixOf l = false) :
+    Agree (sentinel ++ r0) r.isConflict (renderRegion (withName (sentinel ++ r0) nameA) (baseMarkerOf o) nl r)
       (renderRegion (withName lt7 nameA) (baseMarkerOf o) nl r) := by
   cases r with
   | unchanged ls | a ls | same ls | b ls =>
-    have := map_fix_plain ls h
+    have := map_fix_plain _ ls h
     simp [renderRegion, Agree, iterMerge3, Region.isConflict, this.1, this.2]
   | conflict base ta tb =>
-    have hs := fix_start nl hnl
+    have hs := fix_start (sentinel ++ r0) nl
     cases hb : o.showBase with
     | false =>
       simp only [Region.emitted, hb] at h
-      have ha := map_fix_plain ta (fun l hl => h l (by simp [hl]))
-      have hb' := map_fix_plain tb (fun l hl => h l (by simp [hl]))
+      have ha := map_fix_plain _ ta (fun l hl => h l (by simp [hl]))
+      have hb' := map_fix_plain _ tb (fun l hl => h l (by simp [hl]))
       simp [renderRegion, baseMarkerOf, hb, Agree, iterMerge3, Region.isConflict, hs, fix_eq7, fix_gt7,
         ha.1, ha.2, hb'.1, hb'.2]
     | true =>
@@ -76,44 +147,44 @@ theorem renderRegion_agree (o : Opts) (nl : Bytes) (hnl : nl = [10] ∨ nl = [13
       | none => simp [renderRegion, baseMarkerOf, hb, Agree]
       | some bl =>
         simp only [Region.emitted, hb] at h
-        have ha := map_fix_plain ta (fun l hl => h l (by simp [hl]))
-        have hb' := map_fix_plain tb (fun l hl => h l (by simp [hl]))
-        have hbl := map_fix_plain bl (fun l hl => h l (by simp [hl]))
+        have ha := map_fix_plain _ ta (fun l hl => h l (by simp [hl]))
+        have hb' := map_fix_plain _ tb (fun l hl => h l (by simp [hl]))
+        have hbl := map_fix_plain _ bl (fun l hl => h l (by simp [hl]))
         simp [renderRegion, baseMarkerOf, hb, Agree, iterMerge3, Region.isConflict, hs, fix_eq7, fix_gt7,
           fix_bar7, ha.1, ha.2, hb'.1, hb'.2, hbl.1, hbl.2]
 
-theorem mergeLines_agree (o : Opts) (nl : Bytes) (hnl : nl = [10] ∨ nl = [13, 10] ∨ nl = [13])
-    (regions : List Region) (h : NoSentinel o.showBase regions) :
-    Agree (regions.any Region.isConflict)
-      (mergeLines (withName sentinel nameA) (baseMarkerOf o) nl regions)
+theorem mergeLines_agree (o : Opts) (r0 nl : Bytes) (regions : List Region)
+    (h : ∀ r ∈ regions, ∀ l ∈ r.emitted o.showBase, (sentinel ++ r0).isPrefixOf l = false) :
+    Agree (sentinel ++ r0) (regions.any Region.isConflict)
+      (mergeLines (withName (sentinel ++ r0) nameA) (baseMarkerOf o) nl regions)
       (mergeLines (withName lt7 nameA) (baseMarkerOf o) nl regions) := by
   induction regions with
   | nil => simp [mergeLines, Agree, iterMerge3]
   | cons r rs ih =>
-    have hr := renderRegion_agree o nl hnl r (h r (by simp))
+    have hr := renderRegion_agree o r0 nl r (h r (by simp))
     have ih := ih (fun x hx => h x (by simp [hx]))
     simp only [mergeLines, List.any_cons]
     revert hr ih
-    cases renderRegion (withName sentinel nameA) (baseMarkerOf o) nl r <;>
+    cases renderRegion (withName (sentinel ++ r0) nameA) (baseMarkerOf o) nl r <;>
       cases renderRegion (withName lt7 nameA) (baseMarkerOf o) nl r <;>
-      cases mergeLines (withName sentinel nameA) (baseMarkerOf o) nl rs <;>
+      cases mergeLines (withName (sentinel ++ r0) nameA) (baseMarkerOf o) nl rs <;>
       cases mergeLines (withName lt7 nameA) (baseMarkerOf o) nl rs <;>
       simp only [Agree, false_implies, implies_true, imp_self] <;>
       (try (intro h1 h2; first | exact h1 | exact h2)) <;>
       (try (intro h1 h2; rw [iterMerge3_append, h1, h2]))
 
 /-- the form used by `text_merge_spec` -/
-theorem mergeLines_sentinel (o : Opts) (nl : Bytes) (hnl : nl = [10] ∨ nl = [13, 10] ∨ nl = [13])
-    (regions : List Region) (h : NoSentinel o.showBase regions) :
-    (match mergeLines (withName sentinel nameA) (baseMarkerOf o) nl regions with
+theorem mergeLines_marker (o : Opts) (r0 nl : Bytes) (regions : List Region)
+    (h : ∀ r ∈ regions, ∀ l ∈ r.emitted o.showBase, (sentinel ++ r0).isPrefixOf l = false) :
+    (match mergeLines (withName (sentinel ++ r0) nameA) (baseMarkerOf o) nl regions with
       | .error e => (.error e : Except Err (List Line × Bool))
-      | .ok lines => .ok (iterMerge3 lines)) =
+      | .ok lines => .ok (iterMerge3 (sentinel ++ r0) lines)) =
     (match mergeLines (withName lt7 nameA) (baseMarkerOf o) nl regions with
       | .error e => .error e
       | .ok ls => .ok (ls, regions.any Region.isConflict)) := by
-  have := mergeLines_agree o nl hnl regions h
+  have := mergeLines_agree o r0 nl regions h
   revert this
-  cases mergeLines (withName sentinel nameA) (baseMarkerOf o) nl regions <;>
+  cases mergeLines (withName (sentinel ++ r0) nameA) (baseMarkerOf o) nl regions <;>
     cases mergeLines (withName lt7 nameA) (baseMarkerOf o) nl regions <;>
     simp [Agree]
 
@@ -141,16 +212,14 @@ theorem mem_of_mergeLines_conflict (s : Bytes) (bm : Option Bytes) (nl : Bytes) 
         · have := ih t h1 hr'
           simp [this]
 
-theorem any_fix_of_conflict (bm : Option Bytes) (nl : Bytes) (regions : List Region)
-    (l : List Line) (hm : mergeLines (withName sentinel nameA) bm nl regions = .ok l)
+theorem any_fix_of_conflict (M : Bytes) (bm : Option Bytes) (nl : Bytes) (regions : List Region)
+    (l : List Line) (hm : mergeLines (withName M nameA) bm nl regions = .ok l)
     (r : Region) (hr : r ∈ regions) (hc : r.isConflict = true) :
-    l.any (fun x => (fixLine x).2) = true := by
+    l.any (fun x => (fixLine M x).2) = true := by
   have hmem := mem_of_mergeLines_conflict _ bm nl regions l hm r hr hc
   simp only [List.any_eq_true]
   refine ⟨_, hmem, ?_⟩
-  have : sentinel.isPrefixOf (withName sentinel nameA ++ nl) = true := by
-    simp [withName, List.append_assoc]
-  simp [fixLine, this]
+  simp [fix_start]
 
 theorem mergeLines_clean (s : Bytes) (bm : Option Bytes) (nl : Bytes) (regions : List Region)
     (hc : ∀ r ∈ regions, r.isConflict = false) :
